@@ -30,6 +30,7 @@ func init() {
 			{ID: "R5", Desc: "unbound placeholder is an error, not UNDEFINED (SSA)", Run: c16R5},
 			{ID: "R6", Desc: "key-condition shape validated against the key schema before iteration", Run: c16R6},
 			{ID: "R7", Desc: "batch write limits: 25 over all tables, exactly one of put/delete (T-TABLE)", Run: c16R7},
+			{ID: "R8", Desc: "no short-circuit: every operand of a node is evaluated (and thereby checked) before a non-error result (T-DOM)", Run: c16R8},
 		},
 	})
 }
@@ -221,7 +222,7 @@ func c16R3(e *Engine) {
 		if !e.anchor("R3", role+": unused-placeholder detector (func(string, []string) []string)", fn == nil) {
 			continue
 		}
-		construct := e.fname(fn) + ":used-test"
+		construct := e.fnRole(fn) + ":placeholder-used-test" // keyed by role: the helper's name is not part of the finding
 		verdict, why := "", ""
 		instrs(fn, func(in ssa.Instruction) {
 			ifi, ok := in.(*ssa.If)
@@ -477,7 +478,14 @@ func c16R7(e *Engine) {
 				for _, src := range phiSourcesThroughAdds(phi) {
 					if add, ok := src.(*ssa.BinOp); ok && add.Op == token.ADD {
 						if n, isC := constInt(add.Y); isC && n == 1 {
-							incOK = true
+							incOK = true // +1 per request
+						}
+						// + len(requests of this table), once per table
+						if lc, isCall := strip(add.Y).(*ssa.Call); isCall && staticCalleeName(lc) == "builtin.len" {
+							os := strings.Join(e.origins(lc.Call.Args[0]), "|")
+							if strings.Contains(os, "rangeval-of") && strings.Contains(os, "RequestItems") {
+								incOK = true
+							}
 						}
 					}
 				}
@@ -517,32 +525,27 @@ func c16R7(e *Engine) {
 		if !e.anchor("R7", role+": write-request validator", wf == nil) {
 			continue
 		}
-		// outcomes by (put nil?, delete nil?) must be: both nil -> error, both non-nil -> error, exactly one -> nil
+		// outcomes by (put nil?, delete nil?) must be: both nil -> error, both non-nil -> error, exactly one -> nil.
+		// The validator is evaluated abstractly for the four combinations (decision table over its nil tests).
 		okTable := true
 		cases := 0
-		for _, r := range returnsOf(wf) {
-			var putNil, delNil *bool
-			for _, cd := range condsAt(r.Block()) {
-				x, nonNilOnTrue, ok := nilTest(cd.V)
-				if !ok {
+		for _, putNil := range []bool{true, false} {
+			for _, delNil := range []bool{true, false} {
+				isErr, decided := decideByNilness(wf, func(x ssa.Value) (bool, bool) {
+					os := strings.Join(e.origins(x), "|")
+					switch {
+					case strings.Contains(os, "PutRequest"):
+						return putNil, true
+					case strings.Contains(os, "DeleteRequest"):
+						return delNil, true
+					}
+					return false, false
+				})
+				if !decided {
 					continue
 				}
-				isNil := cd.Val != nonNilOnTrue
-				os := strings.Join(e.origins(x), "|")
-				if strings.Contains(os, "PutRequest") {
-					v := isNil
-					putNil = &v
-				}
-				if strings.Contains(os, "DeleteRequest") {
-					v := isNil
-					delNil = &v
-				}
-			}
-			isErr := !isNilConst(retVals(r)[0])
-			if putNil != nil && delNil != nil {
 				cases++
-				both := (*putNil && *delNil) || (!*putNil && !*delNil)
-				if isErr != both {
+				if isErr != (putNil == delNil) {
 					okTable = false
 				}
 			}
@@ -554,7 +557,7 @@ func c16R7(e *Engine) {
 				called = true
 			}
 		})
-		e.check(okTable && cases >= 2 && called, "R7", e.fname(wf)+":exactly-one-of", e.pos(wf.Pos()), "neither and both of {PutRequest, DeleteRequest} are rejected; the validator is applied to every request (cases decided:%d)", cases)
+		e.check(okTable && cases == 4 && called, "R7", e.fname(wf)+":exactly-one-of", e.pos(wf.Pos()), "neither and both of {PutRequest, DeleteRequest} are rejected; the validator is applied to every request (cases decided:%d)", cases)
 	}
 	e.minCount("R7", 6)
 }
@@ -578,4 +581,262 @@ func phiSourcesThroughAdds(p *ssa.Phi) []ssa.Value {
 	}
 	walk(p)
 	return out
+}
+
+// c16R8: the restrictions (reserved words, undefined functions, …) are detected while an operand is evaluated. A node
+// evaluator that returns a non-error result without having evaluated all its operands lets a violation in the skipped
+// operand go unnoticed. For every evaluator function that takes an AST node and evaluates several of its fields:
+// every return of a non-error value must be dominated by all of those operand evaluations.
+func c16R8(e *Engine) {
+	funnel := e.fn("lang", "evalIdentifier")
+	if !e.anchor("R8", "lang.evalIdentifier", funnel == nil) {
+		return
+	}
+	n := 0
+	for _, fn := range e.funcs("lang") {
+		if fn.Parent() != nil || len(fn.Params) == 0 {
+			continue
+		}
+		var node *ssa.Parameter
+		for _, p := range fn.Params {
+			if nt := namedOf(p.Type()); nt != nil && strings.HasSuffix(nt.Obj().Name(), "Expression") && e.roleOf(nt.Obj().Pkg()) == "lang" {
+				node = p
+			}
+		}
+		if node == nil || fn.Signature.Results().Len() != 1 {
+			continue
+		}
+		// operand evaluations: calls (outside loops) with an argument that is a field of the node, reaching the funnel
+		loops := naturalLoops(fn)
+		inLoop := func(b *ssa.BasicBlock) bool {
+			for _, body := range loops {
+				if body[b] {
+					return true
+				}
+			}
+			return false
+		}
+		type opnd struct {
+			call  *ssa.Call
+			field string
+		}
+		var ops []opnd
+		instrs(fn, func(in ssa.Instruction) {
+			c, ok := in.(*ssa.Call)
+			if !ok || isBuiltin(c) || inLoop(c.Block()) {
+				return
+			}
+			g := c.Call.StaticCallee()
+			if g == nil || e.fnRole(g) != "lang" || !e.reach(g)[funnel] {
+				return
+			}
+			for _, a := range c.Call.Args {
+				if !descendsFrom(a, node, 0) {
+					continue
+				}
+				ops = append(ops, opnd{c, operandName(a, node)})
+			}
+		})
+		fields := map[string]bool{}
+		for _, o := range ops {
+			fields[o.field] = true
+		}
+		if len(fields) < 2 {
+			continue
+		}
+		n++
+		construct := e.fname(fn) + ":evaluates-every-operand"
+		bad := ""
+		for _, r := range returnsOf(fn) {
+			v := strip(retVals(r)[0])
+			// error results may be returned early
+			if strings.HasSuffix(typeName(v.Type()), "language.Error") {
+				continue
+			}
+			isErr := false
+			for _, cd := range condsAt(r.Block()) {
+				cd = normCond(cd)
+				if c, ok := cd.V.(*ssa.Call); ok && cd.Val && c.Call.StaticCallee() != nil && c.Call.StaticCallee().Name() == "isError" {
+					isErr = true
+				}
+			}
+			if isErr {
+				continue
+			}
+			// per operand (field of the node): some evaluation of it must dominate the return (alternative evaluations of
+			// one operand live in different type-switch branches)
+			byField := map[string]bool{}
+			for _, o := range ops {
+				if idominates(o.call, r) {
+					byField[o.field] = true
+				} else if _, seen := byField[o.field]; !seen {
+					byField[o.field] = false
+				}
+			}
+			for _, f := range sortedKeys(byField) {
+				if !byField[f] {
+					bad = "the result returned at " + e.ipos(r) + " is produced without evaluating operand " + f
+				}
+			}
+		}
+		if bad != "" {
+			e.fail("R8", construct, e.pos(fn.Pos()), "%s: a reserved word, an unknown function or another restricted construct inside that operand is not detected when the other operand already decides the result", bad)
+		} else {
+			e.pass("R8", construct, e.pos(fn.Pos()), "%d operand evaluations dominate every non-error return", len(ops))
+		}
+	}
+	if n < 2 {
+		e.fail("R8", "count:R8", "-", "only %d multi-operand evaluators found", n)
+	}
+}
+
+// operandName: the field of node through which value a was obtained (first selection on the node), with a constant element index.
+func operandName(a ssa.Value, node ssa.Value) string {
+	name := "?"
+	var walk func(v ssa.Value, d int) bool
+	walk = func(v ssa.Value, d int) bool {
+		if d > 10 {
+			return false
+		}
+		v = strip(v)
+		switch x := v.(type) {
+		case *ssa.UnOp:
+			return walk(x.X, d+1)
+		case *ssa.FieldAddr:
+			if strip(x.X) == strip(node) {
+				name = fieldOf(x).Name()
+				return true
+			}
+			return walk(x.X, d+1)
+		case *ssa.Field:
+			if strip(x.X) == strip(node) {
+				name = fieldOf(x).Name()
+				return true
+			}
+			return walk(x.X, d+1)
+		case *ssa.IndexAddr:
+			if walk(x.X, d+1) {
+				name += "[" + describeIndex(x.Index) + "]"
+				return true
+			}
+		case *ssa.Index:
+			if walk(x.X, d+1) {
+				name += "[" + describeIndex(x.Index) + "]"
+				return true
+			}
+		case *ssa.Extract:
+			return walk(x.Tuple, d+1)
+		case *ssa.TypeAssert:
+			return walk(x.X, d+1)
+		case *ssa.Phi:
+			for _, ed := range x.Edges {
+				if ed != ssa.Value(x) && walk(ed, d+1) {
+					return true
+				}
+			}
+		}
+		return false
+	}
+	walk(a, 0)
+	return name
+}
+
+// decideByNilness evaluates fn for one assignment of nil/non-nil to the values recognised by isNil (a decision table over
+// the function's nil tests; boolean connectives, negation, comparison of booleans and phis are interpreted). It reports
+// whether the function returns a non-nil first result, and whether the evaluation could be carried through.
+func decideByNilness(fn *ssa.Function, isNil func(ssa.Value) (val, known bool)) (isErr, decided bool) {
+	var prev *ssa.BasicBlock
+	phiVal := map[*ssa.Phi]bool{} // boolean phis, resolved on entry to their block against the edge taken
+	var eval func(v ssa.Value, d int) (bool, bool)
+	enter := func(b *ssa.BasicBlock) {
+		for _, in := range b.Instrs {
+			ph, ok := in.(*ssa.Phi)
+			if !ok {
+				break
+			}
+			for i, p := range b.Preds {
+				if p == prev {
+					if r, ok := eval(ph.Edges[i], 0); ok {
+						phiVal[ph] = r
+					} else {
+						delete(phiVal, ph)
+					}
+				}
+			}
+		}
+	}
+	eval = func(v ssa.Value, d int) (bool, bool) {
+		if d > 20 {
+			return false, false
+		}
+		switch x := v.(type) {
+		case *ssa.Const:
+			if x.Value != nil && x.Value.Kind() == constant.Bool {
+				return constant.BoolVal(x.Value), true
+			}
+		case *ssa.UnOp:
+			if x.Op == token.NOT {
+				r, ok := eval(x.X, d+1)
+				return !r, ok
+			}
+		case *ssa.Phi:
+			r, ok := phiVal[x]
+			return r, ok
+		case *ssa.BinOp:
+			if x.Op != token.EQL && x.Op != token.NEQ {
+				return false, false
+			}
+			if t, nonNilOnTrue, ok := nilTest(x); ok {
+				n, known := isNil(t)
+				if !known {
+					return false, false
+				}
+				return n != nonNilOnTrue, true
+			}
+			a, ok1 := eval(x.X, d+1)
+			b, ok2 := eval(x.Y, d+1)
+			if ok1 && ok2 {
+				return (a == b) == (x.Op == token.EQL), true
+			}
+		}
+		return false, false
+	}
+	b := fn.Blocks[0]
+	for steps := 0; steps < 200; steps++ {
+		switch t := b.Instrs[len(b.Instrs)-1].(type) {
+		case *ssa.If:
+			// phis in this block were resolved against prev; evaluate the condition before moving on
+			c, ok := eval(t.Cond, 0)
+			if !ok {
+				return false, false
+			}
+			prev = b
+			if c {
+				b = b.Succs[0]
+			} else {
+				b = b.Succs[1]
+			}
+			enter(b)
+		case *ssa.Jump:
+			prev, b = b, b.Succs[0]
+			enter(b)
+		case *ssa.Return:
+			rv := retVals(t)
+			if len(rv) == 0 {
+				return false, false
+			}
+			if ph, ok := rv[0].(*ssa.Phi); ok {
+				for i, p := range ph.Block().Preds {
+					if p == prev {
+						return !isNilConst(ph.Edges[i]), true
+					}
+				}
+				return false, false
+			}
+			return !isNilConst(rv[0]), true
+		default:
+			return false, false
+		}
+	}
+	return false, false
 }
